@@ -318,6 +318,12 @@ def run(tier):
             ("std::path::PathBuf::push" in callnames or "std::path::Path::join" in callnames)
         if suffix == ".eep.hex":
             okd = okd and ".hex" not in strs
+        # the same path, said in one call: source.with_extension(<suffix without its dot>) replaces what file_stem() cuts off
+        ext = suffix[1:]
+        other_ext = other_suffix[1:] if other_suffix else None
+        if not okd and "std::path::Path::with_extension" in callnames and "source" in optf and ext in strs and \
+                (other_ext is None or other_ext not in strs) and not (ext == "eep.hex" and "hex" in strs):
+            okd = True
         rep.ob("C18.paths|%s|default" % short, okd,
                "default path of %s is parent(source)/stem(source)+%r" % (short, suffix) if okd else
                "default path of %s is not parent(source)/stem(source)+%r: constants %s, calls %s" % (
